@@ -36,7 +36,8 @@ def run(tier, seed):
         rule="TLC enumerates every honest API history within the bounds and every single adversary action "
              "(field substitution from the pool of seen values, reorder/drop/duplicate, truncate with every proof, "
              "splice between two known tokens, ECDSA/ed25519 signature re-encoding, blocks forged with known secrets, "
-             "proof swap, other root); invariant Accepted => Authentic (modulo the named weaknesses). Each exported "
+             "proof swap, root key id hint flipped; the verifier is a ROOT KEY PROVIDER id -> key-or-none, every provider over the known roots for the unmodified / "
+             "hint-flipped token); invariant Accepted => Authentic (modulo the named weaknesses). Each exported "
              "state is concretised to token bytes and offered to SerializedBiscuit::from_slice, Biscuit::from, "
              "Biscuit::from_base64 and UnverifiedBiscuit::from+verify; accept/reject must equal the spec's Verify. "
              "distinct_nontrivial counts distinct (mutation kind, block position, spec verdict, authentic) classes replayed.",
